@@ -1115,6 +1115,12 @@ class Gen:
                 shared_term = S("continue", "continue", label=lab)
             inner = Block("do_label", S("do %s %s = 1, %s" % (lab, v2, self.small_int()), "do_label"),
                           shared_term, [(None, self.body(lsub, d1 + 1, lo=1))])
+            # two to four DO statements share the terminal
+            for extra_v in ["k", "n"][:r.pick([0, 0, 1, 2])]:
+                pre = [] if self.avoid("no_stmt_between_shared_dos") else (
+                    [self.simple_exec(lsub)] if r.chance(20) else [])
+                inner = Block("do_shared", S("do %s %s = 1, %s" % (lab, extra_v, self.small_int()), "do_label"), None,
+                              [(None, pre + [inner])])
             pre = [] if self.avoid("no_stmt_between_shared_dos") else (
                 [self.simple_exec(lsub)] if r.chance(30) else [])
             b = Block("do_shared", S("do %s %s = 1, %s" % (lab, v, self.small_int()), "do_label"), None,
